@@ -1068,6 +1068,45 @@ func main() {
 	}
 	r.Set("stateless_triples", triples)
 	pumps := pumpPass(r)
+	// text the lexer cannot scan (it ends the token stream with an ERROR token, which no rule derives), after every
+	// corpus statement and inside it at every token boundary: both parsers must reject the whole input
+	junk := []string{"foo", "/u<joe", "\"x\"", "_:", "\"abc", "@", "?", "#"}
+	type jcase struct{ text, where string }
+	var jcases []jcase
+	for _, b := range usable {
+		for _, j := range junk {
+			jcases = append(jcases, jcase{b + " " + j, "after-the-statement"})
+			for _, p := range prefixes(b) {
+				if p != "" {
+					jcases = append(jcases, jcase{p + " " + j + " " + b[len(p):], "inside-the-statement"})
+				}
+			}
+		}
+	}
+	var junkAccepted int64
+	common.ParallelFor(len(jcases), func(i int) {
+		c := jcases[i]
+		ks, clean := recog.LexKinds(c.text)
+		if clean {
+			return // the inserted text happened to lex (e.g. it merged with a neighbour): not a case of this pass
+		}
+		for _, mk := range []struct {
+			name string
+			p    *grammar.Parser
+		}{{"BQL", newPlain()}, {"SemanticBQL", newSemantic()}} {
+			if v, _ := parseOn(mk.p, c.text); v.Accepted || v.Panic != "" {
+				atomic.AddInt64(&junkAccepted, 1)
+				shape := "parser-accepts-text-the-lexer-cannot-scan"
+				if v.Panic != "" {
+					shape = "panic-on-text-the-lexer-cannot-scan"
+				}
+				r.Fail(common.Failure{Check: "sequence", Class: "unscannable-text-" + c.where, Shape: shape,
+					Case: seqCase{Tokens: recog.KindNames(ks), Text: c.text, Origin: "junk"}, Detail: fmt.Sprintf("the %s parser on %q: %s; the lexer ends this input with an ERROR token, so it is not a statement", mk.name, c.text, v)})
+			}
+		}
+	})
+	r.Set("unscannable_text_cases", len(jcases))
+	pumps += len(jcases)
 
 	r.Set("states", int(viableTotal)+1)
 	r.Set("transitions", int(evaluated))
